@@ -50,6 +50,7 @@ Theorem C13_protein_exact_no_u : forall freq,
   class_count only_u 0 freq = 0 ->
   exact_margin freq < 0.
 Proof. exact exact_protein_no_u. Qed.
+Print Assumptions C13_protein_exact_no_u.
 
 (* The property as worded is false for U-rich protein (recorded finding): the model, float sums
    included, classifies UUUEUUUE as nucleotide although a quarter of its letters are protein-only. *)
@@ -71,6 +72,7 @@ Theorem C13_tables_case_symmetric :
      N.eqb (nthZ 0%N detect_DNA c) (nthZ 0%N detect_DNA (c + 32)) &&
      N.eqb (nthZ 0%N detect_protein c) (nthZ 0%N detect_protein (c + 32)) else true) idx128 = true.
 Proof. exact tables_case_symmetric_b. Qed.
+Print Assumptions C13_tables_case_symmetric.
 
 (* Non-vacuity: a histogram meeting premise 1, one meeting premise 2 *)
 Example C13_nonvacuous :
